@@ -13,6 +13,9 @@ sys.path.insert(0, HERE)
 from gen_engine import dumps  # noqa: E402
 
 
+UNBUILDABLE = [0]      # requests dropped because /repo refused to construct them (per process)
+
+
 def obs_item(r):
     """What is compared for one batch item: status, reason, data; the message only for the
     not-found / permission family (C03 needs the text), never the wording elsewhere."""
@@ -47,7 +50,11 @@ def run_impl(lines, scripted=True, keep_internal=False):
     try:
         for j in lines:
             try:
-                o = E.handle(j)
+                try:
+                    o = E.handle(j)
+                except impl_engine.BuildRefused as e:
+                    outs.append({"unbuildable": str(e)})
+                    continue
                 if keep_internal and isinstance(o, dict) and "results" in o and E.internal_errors:
                     o = dict(o)
                     o["_internal"] = list(E.internal_errors)
@@ -73,6 +80,10 @@ def gen_and_run(seed, length, profile=None, scripted=True, policies=True, extra=
         h.append(j)
         try:
             o = E.handle(j)
+        except impl_engine.BuildRefused as e:
+            h.pop()                          # never sent: neither side sees it
+            UNBUILDABLE[0] += 1
+            return {"unbuildable": str(e)}
         except Exception as e:
             import traceback
             o = {"harness_error": "%s: %s" % (type(e).__name__, e), "tb": traceback.format_exc()[-1500:]}
